@@ -1,5 +1,5 @@
 SPECIFICATION Spec
 CONSTANTS What = "clone"
- Scope = "quick"
+ Scope = "thorough"
 INVARIANT Emit
 CHECK_DEADLOCK FALSE
